@@ -1776,7 +1776,7 @@ package connect
 //@   assigns everything
 //@   assert@call(NewUnaryHandler$2.untyped#1): typeis(arg1, "*Request") && (let r := cast(arg1, "*Request") in r.spec.Procedure == callres("StreamingHandlerConn.Spec", 1).Procedure && r.spec.StreamType == callres("StreamingHandlerConn.Spec", 1).StreamType && r.spec.IsClient == callres("StreamingHandlerConn.Spec", 1).IsClient && r.header == callres("StreamingHandlerConn.RequestHeader", 1))   // label: user-code-sees-the-spec-and-request-headers-of-the-connection
 //@   assert@call(mergeMetadataHeaders#1): arg0 == callres("StreamingHandlerConn.ResponseHeader", 1) && arg1 == callres("AnyResponse.Header", 1)   // label: response-headers-merged-into-the-connection's-without-the-framing-headers   // tags: C11, C05, C01
-//@   assert@call(mergeHeaders#1): arg0 == callres("StreamingHandlerConn.ResponseTrailer", 1) && arg1 == callres("AnyResponse.Trailer", 1)   // label: response-trailers-merged-into-the-connection's   // tags: C11
+//@   assert@call(mergeHeaders#1): arg0 == callres("StreamingHandlerConn.ResponseTrailer", 1) && arg1 == callres("AnyResponse.Trailer", 1)   // label: response-trailers-merged-into-the-connection's   // tags: C11, C01
 //@   assert@call(StreamingHandlerConn.Send#1): arg1 == callres("AnyResponse.Any", 1) && called("mergeMetadataHeaders", 1) && called("mergeHeaders", 1)   // label: message-sent-after-headers-and-trailers-are-merged   // tags: C11, C01
 
 //@ trusted func NewClientStreamHandler$1.implementation(ctx, stream) (res, err)
